@@ -227,6 +227,8 @@ async def site_ranges(r, n) -> list[Case]:
     for _ in range(n):
         dirs, labels = label_universe(r, 8)
         tdirs = [d + "/" for d in r.sample(dirs, min(len(dirs), 2))]
+        # the bounds of the label range of each target themselves, and their neighbours, as outputs
+        labels = sorted({*labels, *[td[:-1] + c for td in tdirs for c in ("0", ".", "/0") if r.random() < 0.7]})
         if r.random() < 0.2:
             # `stepup build ./`: the project root as the directory target
             tdirs, dirs = ["./"], [*dirs, "."]
